@@ -252,6 +252,7 @@ inline int32_t verif_get_int(const verif_variant& v)
 }  // namespace UTAP
 
 namespace std {
+inline double fabs(double x) { return x < 0 ? -x : x; }
 template <typename T>
 class vector
 {
